@@ -31,14 +31,16 @@ PRELUDE = "From Unimock Require Import Macro.ShapeRun.\nOpen Scope N_scope.\n"
 
 RECVS = ["ref", "mut", "owned", "rc", "arc", "box", "pin", "tref", "tmut"]      # tref / tmut: the typed spellings `self: &Self` / `self: &mut Self`
 COQ_RECV = {"ref": "RcvRef", "mut": "RcvMut", "owned": "RcvOwned", "rc": "RcvRc", "arc": "RcvArc", "box": "RcvBox", "pin": "RcvPin", "tref": "RcvTypedRef", "tmut": "RcvTypedMut"}
-CLASSES = ["u32", "tok", "string", "ref", "reftok", "str", "slice", "mut", "muttok", "mutlt", "mutnamed", "T", "G", "impl"]
+CLASSES = ["u32", "tok", "string", "ref", "reftok", "str", "slice", "mut", "muttok", "mutlt", "mutnamed", "T", "G", "impl", "assoc", "refassoc"]
 COQ_CLASS = {"u32": "POwned", "tok": "POwnedTok", "string": "PString", "ref": "PRef", "reftok": "PRefTok", "str": "PStr",
              "slice": "PSlice", "mut": "PMut", "muttok": "PMutTok", "mutlt": "PMutLt",
              "mutnamed": "PMut",     # `&'a mut u32`: the same class for the macro (the lifetime sits on the reference, not in the pointee)
-             "T": "PGenericT", "G": "PGenericG", "impl": "PImpl"}
+             "T": "PGenericT", "G": "PGenericG", "impl": "PImpl",
+             # an associated type of the trait, given in the attribute (`type A = u32;`): for the macro `Self::A` is just a path type
+             "assoc": "POwned", "refassoc": "PRef"}
 MUT = ("mut", "muttok", "mutlt", "mutnamed")
-RETS = ["unit", "u32", "tok", "string", "T", "option"]
-COQ_RET = {"unit": "RetUnit", "u32": "RetVal", "tok": "RetTok", "string": "RetString", "T": "RetGeneric", "option": "RetOption"}
+RETS = ["unit", "u32", "tok", "string", "T", "option", "assoc"]
+COQ_RET = {"unit": "RetUnit", "u32": "RetVal", "tok": "RetTok", "string": "RetString", "T": "RetGeneric", "option": "RetOption", "assoc": "RetVal"}
 FLAVS = ["sync", "async", "rpit", "async_trait"]
 COQ_FLAV = {"sync": "FSync", "async": "FAsyncFn", "rpit": "FRpit", "async_trait": "FAsyncTrait"}
 BOUND = "Show + Send + Sync + 'static"
@@ -245,7 +247,7 @@ def rust_real_fn(ti, j, trait):
     selfty = {"ref": "&Unimock", "owned": "Unimock", "rc": "Rc<Unimock>", "arc": "Arc<Unimock>", "box": "Box<Unimock>",
               "tref": "&Unimock", "tmut": "&mut Unimock"}[m["recv"]]
     def pty(p):
-        return {"mutnamed": "&mut u32"}.get(p["c"], rust_param_ty(p))
+        return {"mutnamed": "&mut u32", "assoc": "u32", "refassoc": "&u32"}.get(p["c"], rust_param_ty(p))
     args = ", ".join(f"u: {selfty}" if x == "self" else f"{'mut ' if m['params'][x]['c'] in MUT else ''}p{x}: {pty(m['params'][x])}" for x in exprs)
     vals = [x for x in exprs if x != "self"]
     gen = []
@@ -256,7 +258,7 @@ def rust_real_fn(ti, j, trait):
     first = f"p{vals[0]}.id()" if vals else "0"
     bumps = " ".join(f"p{x}.bump();" for x in vals if m["params"][x]["c"] in MUT)
     addr = "Some(addr_of(&u))" if "self" in exprs else "None"
-    ret = rust_ret_ty(trait, m)
+    ret = rust_ret_ty(trait, m, concrete=(m["ret"] == "assoc"))
     orig = " push(format!(\"O {}\", originality(u)));" if m["recv"] == "owned" and "self" in exprs else ""
     return (f"{'async ' if m['flav'] != 'sync' else ''}fn real_{ti}_{j}{g}({args})" + ("" if m["ret"] == "unit" else f" -> {ret}") +
             f" {{ unmocked({fid}, {addr}, vec![{shows}]); let r = 20000 + 1000 * {fid} + {first}; {bumps}{orig} {rust_ret_expr(m)} }}")
@@ -271,18 +273,19 @@ def actual_ty(trait, m, p):
 def rust_param_ty(p):
     return {"u32": "u32", "tok": "Tok", "string": "String", "ref": "&u32", "reftok": "&Tok", "str": "&str", "slice": "&[u32]",
             "mut": "&mut u32", "muttok": "&mut Tok", "mutlt": "&mut Lt<'_>", "mutnamed": "&'a mut u32", "T": "T", "G": "G",
-            "impl": f"impl {BOUND}"}[p["c"]]
+            "impl": f"impl {BOUND}", "assoc": "Self::A", "refassoc": "&Self::A"}[p["c"]]
 
 
 def rust_ret_ty(trait, m, concrete=False):
-    return {"unit": "()", "u32": "u32", "tok": "Tok", "string": "String", "T": (m["T"] if concrete else "T"), "option": "Option<u32>"}[m["ret"]]
+    return {"unit": "()", "u32": "u32", "tok": "Tok", "string": "String", "T": (m["T"] if concrete else "T"), "option": "Option<u32>",
+            "assoc": ("u32" if concrete else "Self::A")}[m["ret"]]
 
 
 def rust_ret_expr(m):
     r = m["ret"]
     if r == "T":
         r = {"u32": "u32", "Tok": "tok"}[m["T"]]
-    return {"unit": "()", "u32": "r", "tok": "Tok(r)", "string": "r.to_string()", "option": "Some(r)"}[r]
+    return {"unit": "()", "u32": "r", "tok": "Tok(r)", "string": "r.to_string()", "option": "Some(r)", "assoc": "r"}[r]
 
 
 def rust_value(ty, n):
@@ -292,7 +295,8 @@ def rust_value(ty, n):
 def rust_arg(trait, m, k, p, n):
     """(let-statement, argument expression) for parameter k with id n"""
     c, v = p["c"], f"a{k}"
-    if c == "u32": return f"let {v} = {n}u32;", v
+    if c in ("u32", "assoc"): return f"let {v} = {n}u32;", v
+    if c == "refassoc": return f"let {v} = {n}u32;", f"&{v}"
     if c == "tok": return f"let {v} = Tok({n});", v
     if c == "string": return f"let {v} = \"{n}\".to_string();", v
     if c == "ref": return f"let {v} = {n}u32;", f"&{v}"
@@ -317,10 +321,13 @@ def rust_trait(ti, trait):
     uw = ""
     if has_unmock_attr(trait):
         uw = ", unmock_with = [" + ", ".join(rust_uentry(ti, trait, i) for i in range(len(trait["layout"]))) + "]"
-    out = [f"#[unimock(api = {api}{uw})]"]
+    uses_assoc = any(p["c"] in ("assoc", "refassoc") for m in trait["methods"] for p in m["params"]) or any(m["ret"] == "assoc" for m in trait["methods"])
+    out = [f"#[unimock(api = {api}{uw}{', type A = u32;' if uses_assoc else ''})]"]
     if trait["async_trait"]:
         out.append("#[async_trait::async_trait]")
-    out.append(f"trait {tn}{'<G: ' + BOUND + '>' if trait['generic'] else ''} {{")
+    out.append(f"{'pub ' if uses_assoc else ''}trait {tn}{'<G: ' + BOUND + '>' if trait['generic'] else ''} {{")
+    if uses_assoc:
+        out.append("    type A;")
     for i, kind in enumerate(trait["layout"]):
         if kind != "m":
             # receiver-less provided function: not mockable, skipped by the macro, but it is one of the trait's fn items
